@@ -176,6 +176,17 @@ class Recovery:
                         if res.get("errs") or res.get("dump") != r.inflight["dump"]:
                             raise A.Violation("C11", "clean-open-unwritten-state", f"record opens fully committed, but shows neither the old nor the in-flight state: {res.get('errs') or V.diff_dumps(r.inflight['dump'], res.get('dump') or {})}")
                         retro = True
+                        if r.cls == "mf":
+                            # for a manifest record the committed new state includes a manifest that
+                            # matches the link in the newest container
+                            from metador_core.ih5.manifest import IH5UBExtManifest
+                            from metador_core.ih5.record import IH5UserBlock
+
+                            newest = os.path.join(w.sut, r.inflight["files"][-1])
+                            ext = IH5UBExtManifest.get(IH5UserBlock.load(newest))
+                            mfile = newest + "mf.json"
+                            if ext is None or not os.path.exists(mfile) or "sha256:" + hashlib.sha256(open(mfile, "rb").read()).hexdigest() != ext.manifest_hashsum:
+                                raise A.Violation("C11", "committed-new-state-incomplete", f"after the crash the IH5MFRecord opens as fully committed with the new patch, but {'the newest container links no manifest' if ext is None else 'its manifest is missing or does not match'} (the interrupted commit is not recognisable and its manifest/extensions are lost)", shape="manifest")
                     else:
                         raise A.Violation("C11", "clean-open-unwritten-state", f"record opens cleanly with {n} committed containers, but only {len(acked)} commits were acknowledged and {'a' if r.inflight else 'no'} commit was in flight", shape="count")
             else:
